@@ -692,6 +692,47 @@ func init() {
 		} else {
 			e.fail("v1.SetDefaults_CoschedulingArgs not found")
 		}
+
+		// ---- reserve pods: what decides "already bound" ----
+		// (a) GangCache.onPodAddInternal: the condition of every `if` whose own block calls addBoundPod
+		if fd := e.funcDecl(core, "GangCache", "onPodAddInternal"); fd != nil && fd.Body != nil {
+			var conds []string
+			ast.Inspect(fd.Body, func(x ast.Node) bool {
+				st, ok := x.(*ast.IfStmt)
+				if !ok {
+					return true
+				}
+				for _, b := range st.Body.List {
+					if es, ok := b.(*ast.ExprStmt); ok {
+						if ce, ok := es.X.(*ast.CallExpr); ok {
+							if sel, ok := ce.Fun.(*ast.SelectorExpr); ok && sel.Sel.Name == "addBoundPod" {
+								c := src(st.Cond)
+								if st.Init != nil {
+									c = src(st.Init) + ";" + c
+								}
+								conds = append(conds, c)
+							}
+						}
+					}
+				}
+				return true
+			})
+			fmt.Fprintf(&e.out, "def podAddBoundTest : List String := %s\n", lst(conds))
+		} else {
+			e.fail("GangCache.onPodAddInternal not found")
+		}
+		// (b) reservationutil.NewReservePod: where the reserve pod's spec.nodeName comes from
+		rsvDir := "pkg/util/reservation"
+		if fd := e.funcDecl(rsvDir, "", "NewReservePod"); fd != nil && fd.Body != nil {
+			fmt.Fprintf(&e.out, "def reservePodNodeName : List String × List String := (%s, %s)\n", lst(flow(fd.Body, "NodeName")), lst(flow(fd.Body, "nodeName")))
+		} else {
+			e.fail("reservationutil.NewReservePod not found")
+		}
+		if fd := e.funcDecl(rsvDir, "", "GetReservationNodeName"); fd != nil && fd.Body != nil {
+			fmt.Fprintf(&e.out, "def reservationNodeNameGetter : List String := %s\n", lst(flow(fd.Body, "")))
+		} else {
+			e.fail("reservationutil.GetReservationNodeName not found")
+		}
 	}
 }
 
